@@ -28,6 +28,7 @@ FILES = [
 REQUIRED_THEOREMS = [
     "C02_pi_unit", "C02_rho_eq_partial_trace", "C02_phase_aux_bias_irrelevant", "C02_hermitian", "C02_posSemidef",
     "C02_diagonal", "C02_trace", "C02_normalization_pos", "C02_call_forms", "C02_rhoDiag_eq_rho_diag", "C02_diagonal_sampled",
+    "C02_NZ_of_x_ne_zero", "C02_NZ_of_amp_off_hyperplanes", "C02_posSemidef_of_x_ne_zero", "C02_posSemidef_of_amp_off_hyperplanes",
 ]
 THEOREMS = {
     "rho": "C02_rho_eq_partial_trace (+ C02_hermitian, C02_posSemidef, C02_call_forms)",
@@ -343,6 +344,13 @@ def _eval_state(ctx, st, case, am, ph, I):
     finite = bool(np.all(np.isfinite(expo)) and np.all(np.isfinite(piM)))
     big = (not finite) or float(np.max(np.abs(expo))) > EXP_LIMIT or float(np.max(np.abs(E["am"]))) > EXP_LIMIT
     ctx.count("overflow_regime" if big else "exp_domain")
+    # which parameter-level sufficient condition for the guard NZ covers this case (statistics only; audit item C02-1)
+    Ul, dl = _A(am, "U", (a, n)), _A(am, "d", (a,))
+    S = np.array([[r1[j] + r2[j] for j in range(n)] for r1 in rows for r2 in rows], dtype=float)     # sigma + tau in {0,1,2}^n
+    xs = (S @ Ul.T + 2.0 * dl[None, :]) / 2.0
+    ctx.count("guard NZ by C02_NZ_of_amp_off_hyperplanes (every x_k != 0)" if bool(np.all(xs != 0.0)) else "guard NZ: some x_k == 0 (hyperplane condition fails)")
+    ctx.count("guard NZ by C02_NZ_of_phase_weights_small (sum|U_mu| < 2pi)" if bool(np.all(np.abs(_A(ph, "U", (a, n))).sum(1) < 2 * math.pi))
+              else "guard NZ: sum|U_mu| >= 2pi (phase-weight condition fails)")
     if not finite:
         ctx.count("pi_nonfinite")
 
@@ -558,12 +566,86 @@ def malformed(ctx):
             r = st.rho(v, vp, expand=False)
             impl = {"size": int(r.shape[1])} if r.dim() == 2 and r.shape[0] == 2 else {"shape": list(r.shape)}
         except Exception as e:  # noqa: BLE001
-            impl = {"error": type(e).__name__}
+            impl = {"error": True}   # the exception TYPE on malformed input is not constrained by the property
         ctx.case(case, nontrivial=False)
         ctx.count("malformed:" + ("error" if "error" in impl else "ok"))
         if ctx.driver is not None:
             model = ctx.driver.call("c02.paired_batch", B=B, B2=B2)
+            if "error" in model:
+                model = {"error": True}
             ctx.point("rho(v, vp, expand=False) batch sizes", "aux", impl, model, case, exact=True, sig="malformed/paired-batch")
+
+
+# ------------------------------------------------------------------ call shapes outside the property's call forms (audit items C02-2, C02-3)
+def callshape_probe(ctx):
+    """mixed ranks (one argument 1-D, the other a batch) and foreign argument dtypes (float32 / int64): OUTSIDE the quantifier
+    ("expand=True / expand=False / 1-D call forms", arguments from generate_hilbert_space = double). Outcome class / result shape against
+    Density.rhoOutcome, the returned elements against Density.rhoVecBatch / rhoBatchVec and against the implementation's own full matrix.
+    Auxiliary level only: a change here means the model no longer describes the code, not that the property is violated."""
+    rng = ctx.rng
+    n, h, a = 2, 2, 2
+    am, ph = qc.rand_prbm_params(rng, n, h, a, 1.0), qc.rand_prbm_params(rng, n, h, a, 1.0)
+    st = qc.make_density(n, h, a, am, ph)
+    rows = qc.all_states(n)
+    N = len(rows)
+    space_t = torch.tensor(rows, dtype=torch.double)
+    full = _np(st.rho(space_t, space_t))
+    k = rng.randrange(N)
+    B = 3
+    sel = [rng.randrange(N) for _ in range(B)]
+    dts = {"double": torch.double, "float32": torch.float32, "int64": torch.int64}
+    mixed = None
+    if ctx.driver is not None:
+        mixed = ctx.driver.call("c02.mixed", n=n, h=h, a=a, am=qc.pbits(am), ph=qc.pbits(ph), v=bits(rows[k]), rows=bits([rows[i] for i in sel]))
+    for dname, dt in dts.items():
+        for vr in ("vec", B):
+            for vpr in ("none", "vec", B):
+                for expand in (True, False):
+                    case = {"tag": "callshape", "v": vr, "vp": vpr, "expand": expand, "dtype": dname}
+                    v = (space_t[k] if vr == "vec" else space_t[sel]).to(dt)
+                    vp = None if vpr == "none" else (space_t[k] if vpr == "vec" else space_t[sel]).to(dt)
+                    v0 = v.clone()
+                    try:
+                        r = st.rho(v, vp, expand=expand)
+                        impl = {"shape": list(r.shape[1:])} if r.shape[0] == 2 else {"badshape": list(r.shape)}
+                    except Exception as e:  # noqa: BLE001
+                        r, impl = None, {"error": type(e).__name__}
+                    ctx.case(case, nontrivial=False)
+                    ctx.count("callshape:" + ("error" if "error" in impl else "ok"))
+                    if ctx.driver is not None:  # informational: whether / what the code raises and the exact result shape are not constrained here
+                        model = ctx.driver.call("c02.rho_outcome", v=vr, vp=vpr, expand=expand, double=(dname == "double"))
+                        ctx.count("callshape: outcome/shape " + ("as modelled" if impl == model or ("error" in impl and "error" in model)
+                                                                 else "differs from the model (informational)"))
+                    if r is None:
+                        continue
+                    ctx.point("argument unmodified (callshape)", "aux", bool(torch.equal(v, v0)), True, case, exact=True, sig="callshape/arg-modified")
+                    r = _np(r)
+                    # elements: against the implementation's own full matrix (row/column selection) and against the model
+                    vi = [k] if vr == "vec" else sel
+                    wi = vi if vpr == "none" else ([k] if vpr == "vec" else sel)
+                    if vpr == "none" and not expand:
+                        want = np.stack([np.real(np.diagonal(full[0]))[vi], np.zeros(len(vi))])
+                    elif vr == "vec" and vpr == "vec":
+                        want = full[:, k, k]
+                    elif vr != "vec" and vpr != "vec" and wi is not None and expand:
+                        want = full[:, vi][:, :, wi]
+                    elif vr != "vec" and vpr == "vec":
+                        want = full[:, vi, k].reshape(2, B, 1) if expand else full[:, vi, k]
+                    elif vr == "vec":
+                        want = full[:, k, wi]
+                    else:
+                        want = np.stack([full[c][vi, wi] for c in (0, 1)])
+                    sc = float(np.max(np.abs(full)))
+                    if r.size != np.asarray(want).size:  # another result layout: not constrained outside the property's call forms
+                        ctx.count("callshape: result layout differs from the model (informational)")
+                        continue
+                    ctx.point("rho in a mixed-rank / foreign-dtype form == the matching elements of rho(space, space)", "aux", r.ravel(),
+                              np.asarray(want).ravel(), case, scale=sc, sig="callshape/elements")
+                    if mixed is not None and dname == "double" and {str(vr), str(vpr)} == {"vec", str(B)}:
+                        key = "vec_batch" if vr == "vec" else "batch_vec"
+                        mv = np.r_[unbits(mixed[key + "_re"]), unbits(mixed[key + "_im"])]
+                        ctx.point("rho mixed-rank elements vs Density.rhoVecBatch / rhoBatchVec", "aux", r.ravel(), mv, case, scale=sc,
+                                  sig="callshape/model-elements")
 
 
 # ------------------------------------------------------------------ generation
@@ -672,6 +754,7 @@ def run(ctx):
         one_case(ctx, case)
     nz_probe(ctx)
     malformed(ctx)
+    callshape_probe(ctx)
 
 
 def search(ctx):
@@ -690,5 +773,7 @@ def replay(ctx, case):
         nz_probe(ctx)
     elif case.get("tag") == "malformed":
         malformed(ctx)
+    elif case.get("tag") == "callshape":
+        callshape_probe(ctx)
     else:
         one_case(ctx, case)
